@@ -352,63 +352,55 @@ fn o10_1_client_active_timeout() {
     std::mem::forget(c);
 }
 
-fn budget_script(closing: bool) {
-    // Handshake (Pending) resp. disconnect (Closing) retry budget with no frame arriving: the state is
-    // the one the code itself sets up at the first transmission at time t0.
-    let t0 = any_time();
-    let st = if closing { State::Closing(ClosingState { request_bytes: Box::new([4u8, 0, 0, 0, 0]), resend_time_ms: t0 + 2000, resend_count: 10 }) }
-             else { pending(kani::any(), t0 + 2000, 10) };
+fn budget_step(closing: bool) {
+    // One timer evaluation from ANY state of the retry schedule.  Representation invariant (established by the
+    // code that enters the state: resend_time = first transmission + 2000, count = 10; and re-established by
+    // every step, asserted below): resend_time_ms = last transmission + 2000, resend_count <= 10.
+    // By induction over steps: the k-th resend happens >= 2000 ms after the (k-1)-th transmission, Error(Timeout)
+    // needs resend_count == 0, i.e. exactly 10 resends, hence >= 22000 ms after the first transmission; and a
+    // step at or past the current deadline never idles.
+    let last_tx = any_time();
+    let count: u8 = kani::any();
+    kani::assume(count <= 10);
+    let st = if closing { State::Closing(ClosingState { request_bytes: Box::new([4u8, 0, 0, 0, 0]), resend_time_ms: last_tx + 2000, resend_count: count }) }
+             else { pending(kani::any(), last_tx + 2000, count) };
     let mut c = mk_client(st, any_cfg());
     let cls = if closing { 2 } else { 0 };
-    let mut last_tx = t0;
-    let mut resends: u32 = 0;
-    let mut t = t0;
-    let mut i = 0;
-    let mut done = false;
-    while i < 12 {
-        let nt = any_time();
-        kani::assume(nt >= t);
-        t = nt;
-        let sent0 = c.socket.sent_n();
-        if !done {
-            c.handle_events(t);
-            let e = summarise(&c);
-            let sent = c.socket.sent_n() - sent0;
-            assert!(sent <= 1);
-            if sent == 1 {
-                assert!(t >= last_tx + 2000, "[C10,C09] retransmissions are at least 2 s apart");
-                resends += 1;
-                last_tx = t;
-                assert!(e.n == 0 && state_class(&c) == cls);
-            } else if e.n == 1 {
-                assert!(e.timeout == 1 && state_class(&c) == 4);
-                assert!(resends == 10, "[C10,C09] Error(Timeout) only after the whole budget of 10 resends");
-                assert!(t >= last_tx + 2000 && t - t0 >= 22000, "[C10,C09] and not before 22 s after the first transmission");
-                done = true;
-            } else {
-                assert!(e.n == 0 && state_class(&c) == cls);
-                assert!(t < last_tx + 2000, "[C10,C09] a step at or past the deadline always resends or terminates");
-            }
-        }
-        i += 1;
+    let t = any_time();
+    c.handle_events(t);
+    let e = summarise(&c);
+    let sent = c.socket.sent_n();
+    assert!(sent <= 1 && e.n <= 1);
+    if sent == 1 {
+        assert!(t >= last_tx + 2000, "[C10,C09] retransmissions are at least 2 s apart");
+        assert!(count >= 1 && e.n == 0 && state_class(&c) == cls, "[C10,C09] a resend consumes one unit of the budget");
+        let (rt, rc) = match c.state { State::Closing(ref s) => (s.resend_time_ms, s.resend_count), State::Pending(ref s) => (s.resend_time_ms, s.resend_count), _ => (0, 0) };
+        assert!(rt == t + 2000 && rc == count - 1, "[C10,C09] invariant re-established: next deadline 2 s after this transmission");
+        assert!(c.socket.sent(0).len == if closing { 5 } else { 4 }, "[C10,C09] the stored request is what is resent");
+    } else if e.n == 1 {
+        assert!(e.timeout == 1 && state_class(&c) == 4);
+        assert!(count == 0 && t >= last_tx + 2000, "[C10,C09] Error(Timeout) only when the whole budget of resends is used up and the last wait has elapsed");
+    } else {
+        assert!(state_class(&c) == cls);
+        assert!(t < last_tx + 2000, "[C10,C09] a step at or past the deadline always resends or terminates");
     }
-    assert!(resends <= 10);
-    kani::cover!(done, "budget exhausted");
+    kani::cover!(sent == 1, "resend");
+    kani::cover!(e.timeout == 1, "budget exhausted");
     std::mem::forget(c);
 }
 
-//@h props=C10 tier=quick timeout=1800 role=client-handshake-budget
+//@h props=C10 tier=quick timeout=900 role=client-handshake-budget
 //@fn Client::handle_events (Pending)
-//@bound first SYN at any t0; 12 timer evaluations at any non-decreasing times; no frame arrives
-//@assume socket model; crc::compute not reached (stored request bytes are resent)
-#[kani::proof]
-#[kani::unwind(13)]
-fn o10_2_client_handshake_budget() { budget_script(false); }
-
-//@h props=C09,C10 tier=quick timeout=1800 role=client-disconnect-budget
-//@fn Client::handle_events (Closing)
-//@bound first Disconnect at any t0; 12 timer evaluations at any non-decreasing times; no frame arrives
+//@bound ONE timer evaluation at any time from ANY state of the handshake retry schedule (last transmission any, remaining resends 0..=10); the 10-step schedule follows by induction (prose)
 //@assume socket model
 #[kani::proof]
-#[kani::unwind(13)]
-fn o9_4_client_disconnect_budget() { budget_script(true); }
+#[kani::unwind(5)]
+fn o10_2_client_handshake_budget() { budget_step(false); }
+
+//@h props=C09,C10 tier=quick timeout=900 role=client-disconnect-budget
+//@fn Client::handle_events (Closing)
+//@bound ONE timer evaluation at any time from ANY state of the disconnect retry schedule (last transmission any, remaining resends 0..=10); the 10-step schedule follows by induction (prose)
+//@assume socket model
+#[kani::proof]
+#[kani::unwind(5)]
+fn o9_4_client_disconnect_budget() { budget_step(true); }
